@@ -93,7 +93,7 @@ def api_level(rep, tier, seed):
     gs, lits, nts = grammars()
     enum = enumerate_languages(rep, gs, 6, max_nodes=40, label="Lang(constraint grammars)")
     jobs, plan = [], []
-    for k in range(24 if tier == "quick" else 400):
+    for k in range(70 if tier == "quick" else 500):
         gid = rnd.choice(sorted(gs))
         cg = CGen(rnd, nts[gid], lits[gid])
         cons = [cg.rphi(1) for _ in range(rnd.randint(1, 2))]
@@ -116,7 +116,7 @@ def api_level(rep, tier, seed):
                     tid += 1
                     meta[tid] = (spec, [c[1] for c in cons], w, t)
                     fh.write(json.dumps({"ev": "E", "tid": tid, "idx": 0, "phis": [c[0] for c in cons], "tree": t}) + "\n")
-    if tid < 100:
+    if tid < 40:
         raise common.Machinery("the API yielded only %d trees on the constraint specs (vacuous)" % tid)
     r = run_tlc("Trace_Constraint", "Trace_Constraint", workers=1, env={"TRACE_FILE": path}, timeout=3000, heap="8g")
     rep.tlc(r, "Trace_Constraint(API parse)")
